@@ -68,6 +68,7 @@ def register(R):
         modifies=["ghost.DG_IN"], tags="C05",
     ))
     register_async(R)
+    register_async_udp_client(R)
 
 
 def register_async(R):
@@ -130,5 +131,52 @@ def register_async(R):
                 "BusyResourceError": [("second-entrant-is-refused-without-receiving", f"old({rg}) and ghost.DG_IN == old(ghost.DG_IN) and {rg}", "C12")],
                 "BaseException": [("guard-released-on-every-exit", f"not {rg}", "C12")]},
         modifies=["ghost.DG_IN", rg],
+        tags="C05 C12",
+    )
+
+
+def register_async_udp_client(R):
+    """AsyncUDPNetworkClient.send_packet / recv_packet (C05 C12): one datagram per call, under the client's send / receive lock."""
+    R.module("easynetwork/clients/async_udp.py")
+    R.inline_fn("AsyncUDPNetworkClient.__convert_socket_error", "AsyncUDPNetworkClient.__closed")
+    SL, RL = "self.__send_lock.held_by_me", "self.__receive_lock.held_by_me"
+    sg = "self.__endpoint._AsyncDatagramEndpoint__send_guard._ResourceGuard__held"
+    rg = "self.__endpoint._AsyncDatagramEndpoint__recv_guard._ResourceGuard__held"
+    R.shape("AsyncUDPNetworkClientIO", cls="AsyncUDPNetworkClient",
+            fields={"__backend": "AsyncBackend", "__endpoint": "AsyncDatagramEndpointIO", "__send_lock": "LockModel", "__receive_lock": "LockModel"},
+            invariant=[("locks-free-at-entry", f"not {SL} and not {RL}"),
+                       ("guards-held-only-under-the-locks", f"implies({sg}, self.__send_lock.held_by_other) and implies({rg}, self.__receive_lock.held_by_other)")])
+    R.shape("AsyncUDPNetworkClientConnected", cls="AsyncUDPNetworkClient",
+            fields={"__backend": "AsyncBackend", "__endpoint": "AsyncDatagramEndpointIO", "__send_lock": "LockModel", "__receive_lock": "LockModel"})
+    R.contract("AsyncUDPNetworkClient.__ensure_connected", self_shape="AsyncUDPNetworkClientConnected", result="obj", trusted=True,
+               ensures=["same_object(result, self.__endpoint)"],
+               raises={"ClientClosedError": ["True"], "BaseException": ["not typeof(exc, 'Exception')"]},  # client already connected (the shape has an endpoint)
+               env={"returns_field": "_AsyncUDPNetworkClient__endpoint"})
+    conv = "self.__endpoint._AsyncDatagramEndpoint__sender.protocol._DatagramProtocol__converter"
+    dg = f"(fn('S_one', 'bytes', packet) if isnone({conv}) else fn('S_one', 'bytes', fn('K_dto', 'obj', packet)))"
+    R.contract(
+        "AsyncUDPNetworkClient.send_packet", self_shape="AsyncUDPNetworkClientIO",
+        params={"packet": "obj"},
+        ensures=[("exactly-one-datagram-carrying-the-serialized-packet", f"ghost.DG_OUT == old(ghost.DG_OUT) + unit({dg})", "C05 C12"),
+                 ("send-lock-and-guard-released", f"not {SL} and not {sg}", "C12")],
+        raises={"BusyResourceError": [("every-synchronised-call-succeeds: the guard is never found busy under the lock", "False", "C12")],
+                "BaseException": [("send-lock-released-on-every-exit", f"not {SL}", "C12")]},
+        modifies=["ghost.DG_OUT", SL, "self.__send_lock.held_by_other", sg, "ghost.locks_held"],
+        env={"rely_havoc": ["self.__send_lock.held_by_other", sg], "rely_inv": [f"implies({sg}, self.__send_lock.held_by_other)", f"implies({SL}, not self.__send_lock.held_by_other)"],
+             "exc_universe": ["ClientClosedError"],
+             "call_hints": {"send_packet": [("the-datagram-is-sent-while-the-send-lock-is-held", SL)]}},
+        tags="C05 C12",
+    )
+    R.contract(
+        "AsyncUDPNetworkClient.recv_packet", self_shape="AsyncUDPNetworkClientIO",
+        result="obj",
+        ensures=[("exactly-one-datagram-consumed", "len(ghost.DG_IN) == len(old(ghost.DG_IN)) + 1", "C05"),
+                 ("receive-lock-released", f"not {RL}", "C12")],
+        raises={"DatagramProtocolParseError": [("exactly-one-datagram-consumed", "len(ghost.DG_IN) == len(old(ghost.DG_IN)) + 1", "C05 C06"), ("receive-lock-released", f"not {RL}", "C12")],
+                "BusyResourceError": [("every-synchronised-call-succeeds", "False", "C12")],
+                "BaseException": [("receive-lock-released-on-every-exit", f"not {RL}", "C12")]},
+        modifies=["ghost.DG_IN", RL, "self.__receive_lock.held_by_other", rg, "ghost.locks_held"],
+        env={"rely_havoc": ["self.__receive_lock.held_by_other", rg], "rely_inv": [f"implies({rg}, self.__receive_lock.held_by_other)", f"implies({RL}, not self.__receive_lock.held_by_other)"],
+             "exc_universe": ["ClientClosedError"]},
         tags="C05 C12",
     )
